@@ -37,7 +37,7 @@ def space(tier):
     if tier == "thorough":
         docs = [spaces.block_space("rule", 3), spaces.block_space("core", 3), spaces.block_space("wide", 2), spaces.mix_space(tier), spaces.levels_space(tier)]
     else:
-        docs = [spaces.block_space("rule", 2), spaces.block_space("core", 2), spaces.block_space("wide", 1), spaces.mix_space(tier), spaces.levels_space(tier)]
+        docs = [spaces.block_space("rule", 2), spaces.block_space("core", 2), spaces.block_space("wide", 1), spaces.mix_space(tier), spaces.levels_space(tier)] + spaces.levels_deep_spaces()
     return spaces.UnionSpace(f"fix-{tier}", [spaces.ConfigDocSpace(d, cfgs) for d in docs])
 
 
@@ -94,17 +94,20 @@ def chain(cfg, text):
 def evaluate(payload):
     cfg, text = payload
     res = {"fail": None, "feeds": 0}
-    st, _v, _w = parser.parse(text)
-    if st != "ok":
-        res["outcome"] = "parse-failed"
-        return res
     one_line = "\n" not in text
+    nlines = text.count("\n") + 1
+    if (cfg != "default" and nlines >= 4) or (cfg.startswith("only2:") and nlines >= 3):
+        # deep documents are explored under the default rule set only, pairs of rules on documents of
+        # up to two lines, single rules on documents of up to four lines
+        res["outcome"] = "pruned"
+        res["count"] = {"pruned_deep_document_default_set_only": 1}
+        return res
     rules = configs.enabled_rules(cfg) if cfg != "default" else None
+    S = firing(text)
+    if S is None:
+        res["outcome"] = "scan-failed-or-unparseable"
+        return res
     if rules is not None:
-        S = firing(text)
-        if S is None:
-            res["outcome"] = "scan-failed"
-            return res
         n_fire = len(S & set(rules))
         run_it = (n_fire == len(rules)) or (one_line and (len(rules) == 1 or n_fire >= 1))
         if not run_it:
